@@ -937,7 +937,14 @@ func serviceEntryWorkloadBuilder(
 				services = []model.ServiceInfo{allServices[i]}
 			}
 
-			policies := buildWorkloadPolicies(ctx, authorizationPolicies, peerAuthsByNs, meshCfg, se.Labels, se.Namespace)
+			// Policies select a workload by the workload's labels: for an inline endpoint these are the endpoint's
+			// labels (as for sidecars and EDS), not the labels of the ServiceEntry resource. Implicit endpoints
+			// (generated from the hosts) have no labels of their own.
+			policyLabels := se.Labels
+			if !implicitEndpoints {
+				policyLabels = wle.Labels
+			}
+			policies := buildWorkloadPolicies(ctx, authorizationPolicies, peerAuthsByNs, meshCfg, policyLabels, se.Namespace)
 
 			var appTunnel *workloadapi.ApplicationTunnel
 			var targetWaypoint *Waypoint
